@@ -522,4 +522,126 @@ theorem getInt_neg (P : Part1) (k : Nat) (hk : k < P.n) :
   unfold Part1.getInt
   simp only [h1, h2, h3, if_true, if_false]
 
+theorem filter_range_getD {α} (l : List α) (d : α) (q : α → Bool) :
+    ((List.range l.length).filter (fun i => q (l.getD i d))).filterMap (fun i => l[i]?) = l.filter q := by
+  induction l using List.reverseRecOn with
+  | nil => simp
+  | append_singleton l a ih =>
+    rw [List.length_append, List.length_singleton, List.range_succ, List.filter_append,
+      List.filterMap_append, List.filter_append]
+    have h1 : (List.range l.length).filter (fun i => q ((l ++ [a]).getD i d)) =
+        (List.range l.length).filter (fun i => q (l.getD i d)) := by
+      apply List.filter_congr
+      intro i hi
+      rw [List.mem_range] at hi
+      simp [List.getD, List.getElem?_append_left hi]
+    rw [h1]
+    have h2 : ((List.range l.length).filter (fun i => q (l.getD i d))).filterMap (fun i => (l ++ [a])[i]?) =
+        ((List.range l.length).filter (fun i => q (l.getD i d))).filterMap (fun i => l[i]?) := by
+      apply List.filterMap_congr
+      intro i hi
+      rw [List.mem_filter, List.mem_range] at hi
+      simp [List.getElem?_append_left hi.1]
+    rw [h2, ih]
+    congr 1
+    by_cases hq : q a <;> simp [List.getD, hq]
+
+theorem squeeze_all (P : Part) :
+    squeeze P none = some (P.filter fun p => decide (1 < p.n)) := by
+  unfold squeeze
+  simp only [Option.bind_eq_bind, Option.bind_some]
+  have : (List.range P.length).filter (fun i => !(List.range P.length).contains i ||
+      decide (1 < (P.getD i ⟨0, fun _ => 0, 0, 0⟩).n)) =
+      (List.range P.length).filter (fun i => (fun p : Part1 => decide (1 < p.n)) (P.getD i ⟨0, fun _ => 0, 0, 0⟩)) := by
+    apply List.filter_congr
+    intro i hi
+    simp [List.mem_range.mp hi]
+  rw [this]
+  exact congrArg some (filter_range_getD P _ (fun p => decide (1 < p.n)))
+
+
+theorem getSlice_full (P : Part1) (hv : Valid P) : P.getSlice none none none = some P := by
+  have hpos := hv.pos
+  unfold Part1.getSlice
+  have c1 : (((none : Option Int).isSome && ((none : Option Int) == none)) ||
+      ((none : Option Int) == some (P.n : Int))) = false := by simp
+  rw [c1]
+  simp only [Bool.false_eq_true, if_false, Option.getD_none]
+  rw [if_neg (by omega)]
+  have hs : sliceIndices none none 1 P.n = ((0 : Int), (P.n : Int)) := by
+    simp [sliceIndices]
+  rw [hs]
+  simp only []
+  rw [if_neg (by omega)]
+  have hm : sliceLen (0 : Int) (P.n : Int) 1 = P.n := by
+    unfold sliceLen
+    rw [if_pos (by omega), if_pos (by omega)]
+    omega
+  have hf : (fun (i : Nat) => P.c ((0 : Int) + (i : Int) * 1).toNat) = P.c := by
+    funext i
+    have : ((0 : Int) + (i : Int) * 1).toNat = i := by omega
+    rw [this]
+  rw [hm, hf, Int.toNat_natCast]
+  have : (0 : Int).toNat = 0 := rfl
+  rw [this, bdry_zero P hpos, bdry_last]
+  exact mk?_of_valid P hv
+
+/-- The one-point partition of a one-point set. -/
+theorem index_degenerate (P : Part1) (hv : Valid P) (hn : P.n = 1) (hd : P.lo = P.hi) :
+    P.index P.lo = some 0 ∧ P.indexFloat P.lo = some 0 := by
+  have hs : searchLeft P.bdry (P.n + 1) P.lo = 0 := by
+    unfold searchLeft
+    rw [hn]
+    simp [searchFrom, bdry_zero P hv.pos]
+  have hdom : ¬ (P.lo < P.lo ∨ P.hi < P.lo) := by
+    rintro (h | h)
+    · exact lt_irrefl _ h
+    · rw [hd] at h; exact lt_irrefl _ h
+  have hb := bdry_zero P hv.pos
+  unfold Part1.index Part1.indexFloat
+  rw [if_neg hdom, if_neg hdom]
+  simp only [hs]
+  rw [if_pos ⟨hb, by omega⟩, if_pos hb]
+  simp
+
+theorem nonuniform_default (n : Nat) (c : Nat → Rat) (hn : 2 ≤ n)
+    (hm : ∀ i, i + 1 < n → c i < c (i + 1)) (bl br : Bool) :
+    ∃ P, nonuniformAxis n c none none bl br = some P ∧ Valid P ∧ P.n = n ∧ P.c = c ∧
+      P.bdryFrac = (if bl then 1 / 2 else 1, if br then 1 / 2 else 1) ∧
+      P.nodesOnBdry Tol.exact = (bl, br) := by
+  have h1 := hm 0 (by omega)
+  have h2 := hm (n - 2) (by omega)
+  have e : n - 2 + 1 = n - 1 := by omega
+  rw [e] at h2
+  simp only [Nat.zero_add] at h1
+  have d1 : c 1 - c 0 ≠ 0 := by linarith
+  have d2 : c (n - 1) - c (n - 2) ≠ 0 := by linarith
+  have hne : ¬ n = 1 := by omega
+  let P : Part1 := ⟨n, c, if bl then c 0 else c 0 - (c 1 - c 0) / 2,
+    if br then c (n - 1) else c (n - 1) + (c (n - 1) - c (n - 2)) / 2⟩
+  have hv : Valid P := by
+    refine ⟨by show 1 ≤ n; omega, hm, ?_, ?_⟩
+    · show (if bl then c 0 else c 0 - (c 1 - c 0) / 2) ≤ c 0
+      split_ifs <;> linarith
+    · show c (n - 1) ≤ (if br then c (n - 1) else c (n - 1) + (c (n - 1) - c (n - 2)) / 2)
+      split_ifs <;> linarith
+  refine ⟨P, ?_, hv, rfl, rfl, ?_, ?_⟩
+  · unfold nonuniformAxis
+    simp only [Option.isSome_none, Bool.false_and, Bool.or_self, Bool.false_eq_true, if_false,
+      Bool.or_eq_true, decide_eq_true_eq, hne, or_false]
+    exact mk?_of_valid P hv
+  · unfold Part1.bdryFrac
+    rw [if_neg hne]
+    show (1 / 2 + (c 0 - (if bl then c 0 else c 0 - (c 1 - c 0) / 2)) / (c 1 - c 0),
+      1 / 2 + ((if br then c (n - 1) else c (n - 1) + (c (n - 1) - c (n - 2)) / 2) - c (n - 1)) /
+        (c (n - 1) - c (n - 2))) = _
+    cases bl <;> cases br <;> simp <;> (try constructor) <;> field_simp <;> norm_num
+  · unfold Part1.nodesOnBdry
+    show (isClose Tol.exact (c 0) (if bl then c 0 else c 0 - (c 1 - c 0) / 2),
+      isClose Tol.exact (c (n - 1)) (if br then c (n - 1) else c (n - 1) + (c (n - 1) - c (n - 2)) / 2)) = _
+    ext
+    · simp only; rw [Bool.eq_iff_iff, isClose_exact_iff]; cases bl <;> simp <;> linarith
+    · simp only; rw [Bool.eq_iff_iff, isClose_exact_iff]; cases br <;> simp <;> linarith
+
+
 end OdlModel.Partition
